@@ -3,7 +3,7 @@
    17 export/import identity, 18 import never takes the process down), which judge what the IMPLEMENTATION left on
    disk / returned, tied to the model and to Prop-level statements, for every input (no bound):
    (1) completeness: a case annotated with the model's own outputs produces no code at all (under the input
-       invariants the harness guarantees, stated explicitly; for the export kind: no code except the two listed findings);
+       invariants the harness guarantees, stated explicitly; for the export kind: no code except the listed finding S19);
    (2) soundness: a case on which a code is not produced satisfies the Prop-level clause that code stands for. *)
 From V Require Import Base.Common Base.CommonLemmas Model.C14_Backup Model.C14_Peerstore Model.C14_State Model.C14_Check
   Proofs.C14_Backup Proofs.C14_Peerstore Proofs.C14_State.
@@ -731,16 +731,15 @@ Proof. intros Ho Hp Hd. apply has_origins_false in Hd. split; [now apply import_
 Lemma raft_import_code keep ord ls d : imp_code (snd (raft_import keep ord ls d)) <> 2.
 Proof. unfold raft_import. destruct (import_lines ls (offline_state (cleanup keep d) [])); cbn [snd imp_code]; discriminate. Qed.
 
-(* The model's own answers fail no monitor except in the shape of the two listed findings (tag 1: a pin with origins does
-   not import, S19; tag 2: the crdt manager dies on an empty stream), for every manager, retention, table, destination,
-   datastore order, stream (edited or not) and listing window *)
+(* The model's own answers fail no monitor except in the shape of the listed finding (tag 1: a pin with origins does not
+   import, S19), for every manager, retention, table, destination, datastore order, stream (edited or not) and listing window.
+   (Before fix-S33 the crdt manager also died on an empty stream; crdt_import now answers ImpOk with the cleaned store.) *)
 Lemma export_model_only_findings_l id mgr keep t src dst0 ord lines edited w :
   order_oracle ord -> cid_sorted (pinset_of t src) ->
   let exported := ord (pinset_of t src) in
   (edited = false -> lines = map JPin exported) ->
   forall c, In c (check_case (export_model_case id mgr keep t src dst0 exported lines edited w)) ->
-    (snd (fst c) = 17 \/ snd (fst c) = 18) /\
-    (snd c = 1 /\ is_S19 exported = true \/ snd c = 2 /\ is_empty_crdt_import mgr lines = true).
+    snd (fst c) = 17 /\ snd c = 1 /\ is_S19 exported = true.
 Proof. intros Ho Hp exported Hl c. unfold export_model_case, export_model_obs.
   assert (E16 : entries_eqb (sorted_entries exported) (pinset_of t src) = true).
   { unfold exported. rewrite (sorted_of_perm ord _ Ho Hp). apply entries_eqb_refl. }
@@ -763,38 +762,31 @@ Proof. intros Ho Hp exported Hl c. unfold export_model_case, export_model_obs.
     destruct (crdt_import lines (export_dst_crdt t dst0)) as [s' r] eqn:Er.
     cbn [check_case]. unfold export_check. rewrite E16. cbn [app]. destruct (N.eqb_spec mgr 0) as [->|_]; [contradiction|].
     unfold export_dst_crdt in Er. rewrite Er. rewrite N.eqb_refl, entries_eqb_refl. cbn [andb app].
-    assert (Hmgr : negb (N.eqb mgr 0) = true) by (destruct (N.eqb_spec mgr 0); [contradiction|reflexivity]).
-    assert (Hcrash : imp_code r = 2 -> lines = []).
-    { unfold crdt_import in Er. destruct (import_lines lines []); [destruct lines|]; injection Er as _ <-; cbn [imp_code]; try discriminate; auto. }
-    intros Hc. apply in_app_or in Hc. destruct Hc as [Hc|Hc].
-    + destruct edited; [destruct Hc|]. specialize (Hl eq_refl).
-      destruct (is_S19 exported) eqn:ES.
-      * destruct (N.eqb (imp_code r) 0 && _); [destruct Hc|]. destruct Hc as [<-|[]]. cbn [fst snd]. auto.
-      * destruct (is_empty_crdt_import mgr lines) eqn:EE.
-        -- destruct (N.eqb (imp_code r) 0 && _); [destruct Hc|]. destruct Hc as [<-|[]]. cbn [fst snd]. auto.
-        -- exfalso. unfold is_S19 in ES. destruct (import_export_sorted ord _ Ho Hp ES) as [I1 [I2 I3]]. fold exported in I1, I2, I3.
-           unfold is_empty_crdt_import in EE. rewrite Hmgr in EE. cbn [andb] in EE.
-           unfold crdt_import in Er. rewrite Hl, I1 in Er. rewrite <- Hl in Er. destruct lines as [|l0 lr]; [discriminate|].
-           injection Er as <- <-. rewrite I2 in Hc. cbn [imp_code N.eqb] in Hc. rewrite entries_eqb_refl in Hc. destruct Hc.
-    + destruct (N.eqb_spec (imp_code r) 2) as [E|_]; [|destruct Hc]. specialize (Hcrash E). subst lines.
-      unfold is_empty_crdt_import in *. rewrite Hmgr in *. cbn [andb] in *. destruct Hc as [<-|[]]. cbn [fst snd]. auto. Qed.
+    assert (Hcrash : imp_code r <> 2).
+    { unfold crdt_import in Er. destruct (import_lines lines []); injection Er as _ <-; cbn [imp_code]; discriminate. }
+    destruct (N.eqb_spec (imp_code r) 2) as [E|_]; [contradiction|]. rewrite app_nil_r.
+    destruct edited; [intros []|]. specialize (Hl eq_refl).
+    destruct (is_S19 exported) eqn:ES.
+    + destruct (N.eqb (imp_code r) 0 && _); intros Hc; [destruct Hc|]. destruct Hc as [<-|[]]. cbn [fst snd]. auto.
+    + unfold is_S19 in ES. destruct (import_export_sorted ord _ Ho Hp ES) as [I1 [I2 I3]]. fold exported in I1, I2, I3.
+      unfold crdt_import in Er. rewrite Hl, I1 in Er. injection Er as <- <-. rewrite I2. cbn [imp_code N.eqb].
+      rewrite entries_eqb_refl. intros []. Qed.
 
-(* completeness for the export kind: outside the two finding shapes the model's own answers raise no code *)
+(* completeness for the export kind: outside the finding shape (no pin with origins) the model's own answers raise no code,
+   for every pinset - the empty one included - and both managers *)
 Lemma export_model_passes_monitor_l id mgr keep t src dst0 ord lines edited w :
   order_oracle ord -> cid_sorted (pinset_of t src) ->
   let exported := ord (pinset_of t src) in
   (edited = false -> lines = map JPin exported) ->
-  no_origins (pinset_of t src) -> (mgr <> 0 -> lines <> []) ->
+  no_origins (pinset_of t src) ->
   check_case (export_model_case id mgr keep t src dst0 exported lines edited w) = [].
-Proof. intros Ho Hp exported Hl Hno Hne.
+Proof. intros Ho Hp exported Hl Hno.
   destruct (check_case (export_model_case id mgr keep t src dst0 exported lines edited w)) as [|c r] eqn:E; [reflexivity|]. exfalso.
-  destruct (export_model_only_findings_l id mgr keep t src dst0 ord lines edited w Ho Hp Hl c) as [_ [[_ H]|[_ H]]].
+  destruct (export_model_only_findings_l id mgr keep t src dst0 ord lines edited w Ho Hp Hl c) as [_ [_ H]].
   - fold exported. rewrite E. now left.
   - unfold is_S19, has_origins in H. apply existsb_exists in H. destruct H as [e [He Hd]].
     unfold no_origins in Hno. rewrite forallb_forall in Hno. rewrite (Hno e) in Hd; [discriminate|].
-    eapply Permutation_in; [apply Ho|exact He].
-  - unfold is_empty_crdt_import in H. apply andb_true_iff in H. destruct H as [H1 H2].
-    destruct (N.eqb_spec mgr 0) as [->|Hm]; [discriminate|]. destruct lines; [now apply Hne|discriminate]. Qed.
+    eapply Permutation_in; [apply Ho|exact He]. Qed.
 
 (* soundness: an export case without codes 16, 17, 18 *)
 Lemma export_monitor_sound_l id mgr keep t src dst0 exported lines edited obs_res obs_after obs_listing :
@@ -808,9 +800,8 @@ Proof. cbn [check_case]. unfold export_check. intros H. split; [|split].
     exfalso. destruct (H (id, 16, 0)) as [A _]; [|now apply A]. apply in_or_app. left. right. now left.
   - intros ->. destruct (N.eqb obs_res 0 && entries_eqb obs_after (pinset_of t src)) eqn:E.
     + apply andb_true_iff in E. destruct E as [E1 E2]. apply N.eqb_eq in E1. apply entries_eqb_eq in E2. auto.
-    + exfalso. set (tag := if is_S19 exported then 1 else if is_empty_crdt_import mgr lines then 2 else 0).
+    + exfalso. set (tag := if is_S19 exported then 1 else 0).
       destruct (H (id, 17, tag)) as [_ [A _]]; [|now apply A].
       apply in_or_app. right. apply in_or_app. right. apply in_or_app. left. now left.
-  - intros ->. set (tag := if is_empty_crdt_import mgr lines then 2 else 0).
-    destruct (H (id, 18, tag)) as [_ [_ A]]; [|now apply A].
+  - intros ->. destruct (H (id, 18, 0)) as [_ [_ A]]; [|now apply A].
     apply in_or_app. right. apply in_or_app. right. apply in_or_app. right. now left. Qed.
